@@ -23,10 +23,40 @@ loop entry, `while` on explicit fuel (term supplied by the caller; `Fail OutOfFu
 out while the condition still holds).  `xs[i]` is `nth_error`, `None` -> `IndexError`.  A variable
 first assigned inside a branch or loop body is local to it (reading it afterwards aborts).
 The function itself returns `res R = Ok r | Err e`.
+
+Extension (translation units, `Unit`): used by the drivers of modules with classes.
+
+* types are written like Coq types over the base types: `list N`, `list (list N)`,
+  `option elem`, `list (list (option elem))` (`list` alone still means `list elem`);
+* a class is a `Record` of its declared fields (`ClassSpec.fields`); inside a method `self.f`
+  is the variable `self'f` (bound from the record at entry, and again by the pattern of every
+  call `self.m(..)`); a method returns `res (state * R)`, `__init__` returns `res state`.
+  A list field may only be rebound in `__init__` (elsewhere lists are updated in place, which the
+  state passing mirrors because no two variables ever share a list: a list variable is only
+  ever assigned a freshly built list);
+* `self.m(args)` is translated only where the evaluation order is unambiguous: as the whole
+  right-hand side of an assignment, as the returned value, or as the index in
+  `xs[self.m(..)].append(e)`.  A method calling itself becomes a `Fixpoint` on explicit fuel
+  (`FunSpec.rec_fuel`, a Coq term over the parameters; `Err OutOfFuel` at 0);
+* `f(args)` for a function translated earlier in the same unit (pure: it cannot mutate);
+* `xs[i]` with `i` of type `Z` follows Python (a negative index counts from the end: `zget`);
+  nested reads `t[i][j]`; stores `xs[i] = e`, `t[i][j] = e`, `xs[i] op= e`, `t[i].append(e)`
+  are functional updates (`nset` / `zset`), `IndexError` when out of range;
+* fresh lists: `[]`, `[e] * n` (immutable `e` only), `[e for _ in range(n)]` (`e` not using the
+  loop variable), `list(range(n))`, `list(xs)` (copy), `[x for x in xs if c]`;
+* `b ** e` with a non-negative base: `N.pow` / `Z.pow`; an exponent of type `Z` is guarded
+  (`NegativePower` when negative -- Python would produce a float, which is not modelled);
+* `min(a, b)` on elements: `py_min a b = if ltb b a then b else a` (Python returns the first
+  argument unless the second is smaller), `TypeError` when an argument is a `None` cell;
+* `assert x is not None` on a variable of option type: `AssertionError` when violated (the
+  translation is of the program run without `-O`), the variable has the underlying type afterwards;
+* `None` and values of type `T` where `option T` is expected (`Some`), `range(a, b)`, `range(e)`
+  with `e : Z` (empty when negative), `e.bit_length()` on `Z` (of the absolute value).
 """
 from __future__ import annotations
 
 import ast
+import copy
 from dataclasses import dataclass, field, replace
 from pathlib import Path
 from typing import Callable, Dict, List, Optional
@@ -44,22 +74,122 @@ Inductive flow (S R : Type) : Type := Next (s : S) | Ret (r : R) | Fail (e : err
 Arguments Ok {R} r.  Arguments Err {R} e.
 Arguments Next {S R} s.  Arguments Ret {S R} r.  Arguments Fail {S R} e.
 """
+EXTRA_ERRORS = ("AssertionError", "TypeError", "NegativePower")
+HELPERS = {
+    "list_set": """\
+(* xs[i] = v at a position counted from the front; None = IndexError *)
+Fixpoint list_set {X : Type} (l : list X) (i : nat) (v : X) {struct l} : option (list X) :=
+  match l, i with
+  | nil, _ => None
+  | cons _ l', O => Some (cons v l')
+  | cons x l', S i' => match list_set l' i' v with Some r => Some (cons x r) | None => None end
+  end.""",
+    "nset": """\
+Definition nset {X : Type} (l : list X) (i : N) (v : X) : option (list X) := list_set l (N.to_nat i) v.""",
+    "zpos": """\
+(* the position Python's xs[i] designates: a negative index counts from the end *)
+Definition zpos {X : Type} (l : list X) (i : Z) : option nat :=
+  if Z.leb 0%Z i then Some (Z.to_nat i)
+  else if Z.leb 0%Z (Z.add (Z.of_nat (length l)) i) then Some (Z.to_nat (Z.add (Z.of_nat (length l)) i))
+  else None.""",
+    "zget": """\
+Definition zget {X : Type} (l : list X) (i : Z) : option X :=
+  match zpos l i with Some p => nth_error l p | None => None end.""",
+    "zset": """\
+Definition zset {X : Type} (l : list X) (i : Z) (v : X) : option (list X) :=
+  match zpos l i with Some p => list_set l p v | None => None end.""",
+    "is_empty": """\
+Definition is_empty {X : Type} (l : list X) : bool := match l with nil => true | cons _ _ => false end.""",
+}
+HELPER_DEPS = {"nset": ["list_set"], "zget": ["zpos"], "zset": ["zpos", "list_set"]}
+PY_MIN = "Definition py_min (a b : A) : A := if ltb b a then b else a."
+
+BASE_TYPES = {"N": "N", "Z": "Z", "bool": "bool", "elem": "A"}
 COQ_TYPE = {"N": "N", "Z": "Z", "bool": "bool", "elem": "A", "list": "list A"}
 RESERVED = set("""A N Z S O nat bool list unit tt true false nil cons app length nth_error negb andb orb eqb
     Next Ret Fail Ok Err IndexError OutOfFuel res flow err Some None fun let in match with end if then else fix cofix
-    forall exists Type Prop Set struct as at return using where mod IF _""".split())
+    forall exists Type Prop Set struct as at return using where mod IF _
+    ltb option map seq repeat filter fst snd pair prod list_set nset zpos zget zset is_empty py_min self
+    AssertionError TypeError NegativePower left right inl inr conj exist existT eq_refl Lt Eq Gt I""".split())
 BINOPS = {ast.Add: "add", ast.Sub: "sub", ast.BitAnd: "land", ast.BitOr: "lor",
           ast.LShift: "shiftl", ast.RShift: "shiftr"}
 CMPOPS = {ast.Eq: ("eqb", False, False), ast.NotEq: ("eqb", False, True), ast.Lt: ("ltb", False, False),
           ast.LtE: ("leb", False, False), ast.Gt: ("ltb", True, False), ast.GtE: ("leb", True, False)}  # (fn, swap, negate)
+IMMUTABLE = ("N", "Z", "bool", "elem", "option N", "option Z", "option bool", "option elem")
+FORBIDDEN_METHODS = ("__getattr__", "__getattribute__", "__setattr__", "__delattr__", "__slots__")
+
+
+# -------------------------------------------------------------------- types
+def norm_type(t: str) -> str:
+    """Canonical spelling of a declared type; raises ValueError when it is not one."""
+    toks = t.replace("(", " ( ").replace(")", " ) ").split()
+
+    def parse(i):
+        if i >= len(toks):
+            raise ValueError(t)
+        if toks[i] == "(":
+            r, i = parse(i + 1)
+            if i >= len(toks) or toks[i] != ")":
+                raise ValueError(t)
+            return r, i + 1
+        if toks[i] in BASE_TYPES:
+            return toks[i], i + 1
+        if toks[i] in ("list", "option"):
+            if i + 1 >= len(toks) or toks[i + 1] == ")":
+                if toks[i] == "list":
+                    return "list", i + 1
+                raise ValueError(t)
+            arg, j = parse(i + 1)
+            if toks[i] == "list" and arg == "elem":
+                return "list", j
+            return f"{toks[i]} {arg if ' ' not in arg else '(' + arg + ')'}", j
+        raise ValueError(t)
+
+    r, i = parse(0)
+    if i != len(toks):
+        raise ValueError(t)
+    return r
+
+
+def is_list(t: str) -> bool:
+    return t == "list" or t.startswith("list ")
+
+
+def is_option(t: str) -> bool:
+    return t.startswith("option ")
+
+
+def arg_of(t: str) -> str:
+    """Element type of a list type / underlying type of an option type."""
+    if t == "list":
+        return "elem"
+    a = t.split(" ", 1)[1]
+    return a[1:-1] if a.startswith("(") else a
+
+
+def coq_type(t: str) -> str:
+    if t in COQ_TYPE:
+        return COQ_TYPE[t]
+    a = coq_type(arg_of(t))
+    return f"{t.split(' ', 1)[0]} {a if ' ' not in a else '(' + a + ')'}"
 
 
 @dataclass
 class FunSpec:
     name: str
-    types: Dict[str, str]                 # every parameter, local and loop variable -> N|Z|bool|elem|list
-    ret: str                              # type of the returned value
+    types: Dict[str, str]                 # every parameter, local and loop variable -> declared type
+    ret: str                              # type of the returned value ("" : nothing is returned, __init__)
     fuel: Dict[int, str] = field(default_factory=dict)  # n-th loop of the function (from 1) -> Coq `nat` term
+    alias: Optional[str] = None           # name of the generated definition (default: the Python name)
+    rec_fuel: Optional[str] = None        # fuel (Coq `nat` term over the parameters) of a self-recursive method
+
+
+@dataclass
+class ClassSpec:
+    name: str                             # Python class name
+    short: str                            # Record `<short>_state`, constructor `mk_<short>`, projections `<short>_<field>`
+    fields: Dict[str, str]                # attribute -> declared type, in the order of the Record
+    methods: List[FunSpec] = field(default_factory=list)   # in translation order (callees first)
 
 
 @dataclass
@@ -68,47 +198,113 @@ class _Ctx:
     fail: Callable[[str], str]            # what an error becomes
     fall: Optional[str]                   # what reaching the end of the block becomes
     brk: Optional[str] = None             # what `break` becomes
+    retp: Optional[Callable[[str], str]] = None   # what an inner loop's `Ret r'` becomes (default: ret)
 
 
 def _ind(lines: List[str]) -> List[str]:
     return ["  " + l for l in lines]
 
 
-def _assigned(stmts) -> set:
-    out = set()
-    for s in stmts:
-        for n in ast.walk(s):
-            if isinstance(n, ast.Name) and isinstance(n.ctx, ast.Store):
-                out.add(n.id)
-            elif isinstance(n, ast.Call) and isinstance(n.func, ast.Attribute) and n.func.attr == "append" \
-                    and isinstance(n.func.value, ast.Name):
-                out.add(n.func.value.id)
-    return out
-
-
 def _names(nodes) -> set:
     return {n.id for s in nodes for n in ast.walk(s) if isinstance(n, ast.Name)}
 
 
+def _is_self_call(n) -> bool:
+    return isinstance(n, ast.Call) and isinstance(n.func, ast.Attribute) and isinstance(n.func.value, ast.Name) \
+        and n.func.value.id == "self"
+
+
+def _base_name(n):
+    while isinstance(n, ast.Subscript):
+        n = n.value
+    return n.id if isinstance(n, ast.Name) else None
+
+
 class _Fun:
-    def __init__(self, path: Path, fn: ast.FunctionDef, spec: FunSpec, prefix: str):
+    def __init__(self, path: Path, fn: ast.FunctionDef, spec: FunSpec, prefix: str, unit: "Unit" = None,
+                 cls: ClassSpec = None):
         self.path, self.fn, self.spec, self.prefix = path, fn, spec, prefix
+        self.unit, self.cls = unit, cls
         self.fixpoints: List[str] = []
         self.nloop = self.nk = self.nt = 0
-        self.R = COQ_TYPE[spec.ret]
+        self.fieldvars: List[str] = []
+        self.callpos: set = set()
+        self.in_rec = False
+        if cls is not None:
+            self.spec = replace(spec, types=dict(spec.types))
+            for f, t in cls.fields.items():
+                self.spec.types["self'" + f] = t
+                self.fieldvars.append("self'" + f)
+        self.R = coq_type(spec.ret) if spec.ret else None
+        if unit is not None:
+            self.rename_reserved()
+
+    def rename_reserved(self):
+        """A Python variable whose name the generated text uses (`length`, `map`, ..) gets a `_` appended."""
+        names = {n.id for n in ast.walk(self.fn) if isinstance(n, ast.Name)} | {a.arg for a in ast.walk(self.fn)
+                                                                                 if isinstance(a, ast.arg)}
+        ren = {n: n + "_" for n in names if n in RESERVED and n != "self" and n in self.spec.types}
+        for old, new in ren.items():
+            if new in names or new in self.spec.types or new in RESERVED:
+                self.abort(self.fn, f"cannot rename the variable {old!r}: {new!r} is in use too")
+        if not ren:
+            return
+        self.spec = replace(self.spec, types={ren.get(k, k): v for k, v in self.spec.types.items()})
+        for n in ast.walk(self.fn):
+            if isinstance(n, ast.Name) and n.id in ren:
+                n.id = ren[n.id]
+            elif isinstance(n, ast.arg) and n.arg in ren:
+                n.arg = ren[n.arg]
 
     def abort(self, node, msg: str):
         raise TranslatorAbort(f"{self.path}:{getattr(node, 'lineno', 0)}: in {self.fn.name}: {msg}")
 
+    def need(self, *names: str):
+        if self.unit is None:
+            self.abort(self.fn, f"construct needing {names[0]!r} outside a translation unit")
+        for n in names:
+            (self.unit.errors if n in EXTRA_ERRORS else self.unit.helpers).add(n)
+
     def ty(self, node, name: str) -> str:
+        if name in self.fieldvars:
+            return self.spec.types[name]
         if name in RESERVED or "'" in name or not name.isascii():
             self.abort(node, f"the name {name!r} collides with a name used by the generated Coq text")
         if name not in self.spec.types:
             self.abort(node, f"no declared type for variable {name!r}")
         return self.spec.types[name]
 
+    def vtype(self, node, name: str, env) -> str:
+        t = self.ty(node, name)
+        return arg_of(t) if name + "!" in env else t
+
     def binder(self, node, name: str) -> str:
-        return f"({name} : {COQ_TYPE[self.ty(node, name)]})"
+        return f"({name} : {coq_type(self.ty(node, name))})"
+
+    def assigned(self, stmts) -> set:
+        out = set()
+        for s in stmts:
+            for n in ast.walk(s):
+                if isinstance(n, ast.Name) and isinstance(n.ctx, ast.Store):
+                    out.add(n.id)
+                elif isinstance(n, ast.Subscript) and isinstance(n.ctx, ast.Store) and _base_name(n):
+                    out.add(_base_name(n))
+                elif isinstance(n, ast.Call) and isinstance(n.func, ast.Attribute) and n.func.attr == "append" \
+                        and _base_name(n.func.value):
+                    out.add(_base_name(n.func.value))
+                elif _is_self_call(n):
+                    out.update(self.fieldvars)
+        return out
+
+    def used(self, nodes) -> set:
+        out = _names(nodes)
+        if any(_is_self_call(n) for s in nodes for n in ast.walk(s)):
+            out.update(self.fieldvars)
+        return out
+
+    # state of the object, as a term and as a pattern (the same text)
+    def state(self, node) -> str:
+        return f"(mk_{self.cls.short} {' '.join(self.fieldvars)})"
 
     # ---------------------------------------------------------------- expressions
     def join(self, node, a: str, b: str) -> str:
@@ -116,15 +312,44 @@ class _Fun:
             self.abort(node, f"integer operator applied to operands of type {a} and {b}")
         return "Z" if "Z" in (a, b) else "N" if "N" in (a, b) else "lit"
 
+    def comp_kind(self, e):
+        """Classify a list comprehension: ('repeat', elt, count) | ('filter', var, seq, cond) | None."""
+        if not isinstance(e, ast.ListComp) or len(e.generators) != 1:
+            return None
+        g = e.generators[0]
+        if g.is_async or not isinstance(g.target, ast.Name):
+            return None
+        it = g.iter
+        if not g.ifs and isinstance(it, ast.Call) and isinstance(it.func, ast.Name) and it.func.id == "range" \
+                and len(it.args) == 1 and not it.keywords and g.target.id not in _names([e.elt]):
+            return ("repeat", e.elt, it.args[0])
+        if len(g.ifs) == 1 and isinstance(it, ast.Name) and isinstance(e.elt, ast.Name) and e.elt.id == g.target.id:
+            return ("filter", g.target.id, it, g.ifs[0])
+        return None
+
+    def is_fresh(self, e) -> bool:
+        """Does `e` build a new list object (so that assigning it creates no alias)?"""
+        if isinstance(e, ast.List) and not e.elts:
+            return True
+        if isinstance(e, ast.BinOp) and isinstance(e.op, ast.Mult) and isinstance(e.left, ast.List) and len(e.left.elts) == 1:
+            return True
+        if isinstance(e, ast.Call) and isinstance(e.func, ast.Name) and e.func.id == "list" and len(e.args) == 1 \
+                and not e.keywords:
+            return True
+        return self.comp_kind(e) is not None
+
     def ntype(self, e, env) -> str:
-        """Natural type of an expression: N, Z, bool, elem, list, or lit (int literal: adapts)."""
+        """Natural type of an expression: a declared type, lit (int literal: adapts), none (the
+        constant None: any option type) or newlist (a list display: any list type)."""
         if isinstance(e, ast.Constant):
             if isinstance(e.value, bool):
                 return "bool"
             if isinstance(e.value, int):
                 return "lit"
+            if e.value is None:
+                return "none"
         elif isinstance(e, ast.Name) and isinstance(e.ctx, ast.Load):
-            t = self.ty(e, e.id)
+            t = self.vtype(e, e.id, env)
             if e.id not in env:
                 self.abort(e, f"variable {e.id!r} is not definitely assigned here (or is a loop variable read after its loop)")
             return t
@@ -138,15 +363,50 @@ class _Fun:
                 return self.join(e, self.ntype(e.left, env), "lit")
             t = self.join(e, self.ntype(e.left, env), self.ntype(e.right, env))
             return "Z" if isinstance(e.op, ast.Sub) else t
+        elif isinstance(e, ast.BinOp) and isinstance(e.op, ast.Pow):
+            self.join(e, self.ntype(e.right, env), "lit")
+            return "Z" if self.join(e, self.ntype(e.left, env), "lit") == "Z" else "N"
+        elif isinstance(e, ast.BinOp) and isinstance(e.op, ast.Mult) and self.is_fresh(e):
+            return "newlist"
         elif isinstance(e, (ast.Compare, ast.BoolOp)):
             return "bool"
         elif isinstance(e, ast.Call):
-            return "N"          # only len(...) and .bit_length() get through raw()
+            return self.call_type(e, env)
         elif isinstance(e, ast.Subscript):
-            return "elem"
+            bt = self.ntype(e.value, env)
+            if not is_list(bt):
+                self.abort(e, f"indexing a value of type {bt}")
+            return arg_of(bt)
         elif isinstance(e, ast.List) and not e.elts:
-            return "list"
+            return "list" if self.unit is None else "newlist"
+        elif isinstance(e, ast.ListComp):
+            k = self.comp_kind(e)
+            if k and k[0] == "repeat":
+                return "newlist"
+            if k and k[0] == "filter":
+                return self.ntype(k[2], env)
         self.abort(e, f"expression outside the handled subset: {ast.dump(e)[:80]}")
+
+    def call_type(self, e, env) -> str:
+        f = e.func
+        if e.keywords:
+            self.abort(e, "call with keyword arguments")
+        if isinstance(f, ast.Name) and f.id == "len" or isinstance(f, ast.Attribute) and f.attr == "bit_length":
+            return "N"
+        if isinstance(f, ast.Name) and f.id == "min" and len(e.args) == 2:
+            return "elem"
+        if isinstance(f, ast.Name) and f.id == "list" and len(e.args) == 1:
+            a = e.args[0]
+            if isinstance(a, ast.Call) and isinstance(a.func, ast.Name) and a.func.id == "range":
+                return "list N"
+            return self.ntype(a, env)
+        if isinstance(f, ast.Name) and self.unit is not None and f.id in self.unit.functions:
+            return self.unit.functions[f.id].ret
+        if _is_self_call(e) and self.cls is not None:
+            for m in self.cls.methods:
+                if m.name == f.attr and m.ret:
+                    return m.ret
+        return "N"          # rejected by raw()
 
     def expr(self, e, want: str, env, hoist) -> str:
         """Coq term of type `want` for `e`; index expressions are appended to `hoist`."""
@@ -154,6 +414,21 @@ class _Fun:
         if want == "bool" and t in ("N", "Z", "lit"):        # truthiness of an int
             t = "Z" if t == "lit" else t
             return f"(negb ({t}.eqb {self.raw(e, t, env, hoist)} 0%{t}))"
+        if want == "bool" and is_list(t):                     # truthiness of a list
+            self.need("is_empty")
+            return f"(negb (is_empty {self.raw(e, t, env, hoist)}))"
+        if t == "none":
+            if not is_option(want):
+                self.abort(e, f"None where a value of type {want} is expected")
+            return "None"
+        if t == "newlist":
+            if not is_list(want):
+                self.abort(e, f"list display where a value of type {want} is expected")
+            return self.raw(e, want, env, hoist)
+        if is_option(want) and not is_option(t):
+            return f"(Some {self.expr(e, arg_of(want), env, hoist)})"
+        if is_list(want) and is_list(t) and t != want and is_option(arg_of(want)) and arg_of(arg_of(want)) == arg_of(t):
+            return f"(map Some {self.raw(e, t, env, hoist)})"
         if t == "lit":
             if want not in ("N", "Z"):
                 self.abort(e, f"integer literal where a value of type {want} is expected")
@@ -168,7 +443,7 @@ class _Fun:
         if isinstance(e, ast.Constant):
             if t == "bool":
                 return "true" if e.value else "false"
-            if e.value < 0 or t not in ("N", "Z"):
+            if e.value is None or e.value < 0 or t not in ("N", "Z"):
                 self.abort(e, "literal outside the handled subset")
             return f"{e.value}%{t}"
         if isinstance(e, ast.Name):
@@ -177,6 +452,22 @@ class _Fun:
             return f"(-{e.operand.value})%Z"
         if isinstance(e, ast.UnaryOp):
             return f"(negb {self.expr(e.operand, 'bool', env, hoist)})"
+        if isinstance(e, ast.BinOp) and isinstance(e.op, ast.Pow):
+            base = self.expr(e.left, t, env, hoist)
+            et = self.ntype(e.right, env)
+            if et in ("N", "lit"):
+                ex = self.expr(e.right, "N", env, hoist)
+                return f"({t}.pow {base} {ex if t == 'N' else '(Z.of_N ' + ex + ')'})"
+            ex = self.expr(e.right, "Z", env, hoist)
+            self.need("NegativePower")
+            hoist.append(("guard", f"(Z.ltb {ex} 0%Z)", "NegativePower"))
+            return f"({t}.pow {base} {'(Z.to_N ' + ex + ')' if t == 'N' else ex})"
+        if isinstance(e, ast.BinOp) and isinstance(e.op, ast.Mult):
+            et = arg_of(t)
+            if et not in IMMUTABLE:
+                self.abort(e, f"[e] * n with e of the mutable type {et} (the n cells would share one object)")
+            elt = self.expr(e.left.elts[0], et, env, hoist)
+            return f"(repeat {elt} {self.count(e.right, env, hoist)})"
         if isinstance(e, ast.BinOp):
             op = BINOPS[type(e.op)]
             if op == "sub" and t != "Z":
@@ -212,46 +503,262 @@ class _Fun:
                 out = f"({f} {p} {out})"
             return out
         if isinstance(e, ast.Call) and not e.keywords:
-            if isinstance(e.func, ast.Name) and e.func.id == "len" and len(e.args) == 1 \
-                    and isinstance(e.args[0], ast.Name) and self.ntype(e.args[0], env) == "list":
-                return f"(N.of_nat (length {e.args[0].id}))"
-            if isinstance(e.func, ast.Attribute) and e.func.attr == "bit_length" and not e.args:
-                if self.ntype(e.func.value, env) != "N":
-                    self.abort(e, "bit_length() is only translated for values declared N")
-                return f"(N.size {self.raw(e.func.value, 'N', env, hoist)})"
-            self.abort(e, "call outside the handled subset (len(xs), e.bit_length())")
+            return self.call(e, t, env, hoist)
         if isinstance(e, ast.Subscript):
-            if not isinstance(e.value, ast.Name) or self.ntype(e.value, env) != "list" or isinstance(e.slice, ast.Slice):
+            if isinstance(e.slice, ast.Slice):
                 self.abort(e, "only xs[i] with xs a declared sequence variable is handled")
-            if self.ntype(e.slice, env) not in ("N", "lit"):
-                self.abort(e, "index must be of declared type N (a negative index counts from the end in Python)")
-            self.nt += 1
-            hoist.append((f"t'{self.nt}", e.value.id, self.expr(e.slice, "N", env, [])))
-            if any(isinstance(n, ast.Subscript) for n in ast.walk(e.slice)):
-                self.abort(e, "nested indexing")
-            return f"t'{self.nt}"
+            if isinstance(e.value, ast.Name):
+                if not is_list(self.ntype(e.value, env)):
+                    self.abort(e, "only xs[i] with xs a declared sequence variable is handled")
+                seq = e.value.id
+            elif isinstance(e.value, ast.Subscript) and self.unit is not None:
+                seq = self.raw(e.value, self.ntype(e.value, env), env, hoist)
+            else:
+                self.abort(e, "only xs[i] with xs a declared sequence variable is handled")
+            return self.index(e, seq, e.slice, env, hoist)
         if isinstance(e, ast.List):
-            return "(@nil A)"
+            return "(@nil A)" if t == "list" else f"(@nil ({coq_type(arg_of(t))}))"
+        if isinstance(e, ast.ListComp):
+            k = self.comp_kind(e)
+            if k[0] == "repeat":
+                sub: list = []
+                elt = self.expr(k[1], arg_of(t), env, sub)
+                if sub:
+                    self.abort(e, "comprehension element that can raise")
+                return f"(repeat {elt} {self.count(k[2], env, hoist)})"
+            var, seq, cond = k[1], k[2], k[3]
+            if self.ty(e, var) != arg_of(t) or var in env:
+                self.abort(e, f"comprehension variable {var!r} must be declared {arg_of(t)} and used nowhere else")
+            sub = []
+            c = self.expr(cond, "bool", env + [var], sub)
+            if sub:
+                self.abort(e, "comprehension condition that can raise")
+            return f"(filter (fun {self.binder(e, var)} => {c}) {seq.id})"
         self.abort(e, "expression outside the handled subset")
 
+    def count(self, e, env, hoist) -> str:
+        """`nat` term for the length `n` of `range(n)` / `[x] * n` (empty when negative)."""
+        ct = self.ntype(e, env)
+        if ct in ("N", "lit"):
+            return f"(N.to_nat {self.expr(e, 'N', env, hoist)})"
+        if ct == "Z" and self.unit is not None:
+            return f"(Z.to_nat {self.expr(e, 'Z', env, hoist)})"
+        self.abort(e, "range(e) is only translated for e of declared type N")
+
+    def index(self, e, seq: str, sl, env, hoist) -> str:
+        """Hoist the read `seq[sl]`; returns the temporary holding the value."""
+        it = self.ntype(sl, env)
+        if it == "Z" and self.unit is not None:
+            idx = self.expr(sl, "Z", env, hoist)
+            self.need("zget")
+            self.nt += 1
+            hoist.append(("zidx", f"t'{self.nt}", seq, idx))
+            return f"t'{self.nt}"
+        if it not in ("N", "lit"):
+            self.abort(e, "index must be of declared type N (a negative index counts from the end in Python)")
+        if self.unit is None:
+            self.nt += 1
+            hoist.append(("idx", f"t'{self.nt}", seq, self.expr(sl, "N", env, [])))
+            if any(isinstance(n, ast.Subscript) for n in ast.walk(sl)):
+                self.abort(e, "nested indexing")
+            return f"t'{self.nt}"
+        idx = self.expr(sl, "N", env, hoist)
+        self.nt += 1
+        hoist.append(("idx", f"t'{self.nt}", seq, idx))
+        return f"t'{self.nt}"
+
+    def call(self, e, t: str, env, hoist) -> str:
+        f = e.func
+        if isinstance(f, ast.Name) and f.id == "len" and len(e.args) == 1 \
+                and isinstance(e.args[0], ast.Name) and is_list(self.ntype(e.args[0], env)):
+            return f"(N.of_nat (length {e.args[0].id}))"
+        if isinstance(f, ast.Attribute) and f.attr == "bit_length" and not e.args:
+            vt = self.ntype(f.value, env)
+            if vt == "Z" and self.unit is not None:
+                return f"(N.size (Z.abs_N {self.raw(f.value, 'Z', env, hoist)}))"
+            if vt != "N":
+                self.abort(e, "bit_length() is only translated for values declared N")
+            return f"(N.size {self.raw(f.value, 'N', env, hoist)})"
+        if self.unit is None:
+            self.abort(e, "call outside the handled subset (len(xs), e.bit_length())")
+        if isinstance(f, ast.Name) and f.id == "min" and len(e.args) == 2:
+            if not self.unit.elem_lt:
+                self.abort(e, "min() needs the unit's element order")
+            terms, pending = [], []
+            for a in e.args:
+                at = self.ntype(a, env)
+                if at == "elem":
+                    terms.append(self.expr(a, "elem", env, hoist))
+                elif at == "option elem":
+                    inner = self.raw(a, at, env, hoist)
+                    self.nt += 1
+                    pending.append(("unwrap", f"t'{self.nt}", inner, "TypeError"))
+                    terms.append(f"t'{self.nt}")
+                else:
+                    self.abort(a, f"min() of a value of type {at}")
+            if pending:
+                self.need("TypeError")
+            hoist.extend(pending)               # the comparison happens after both arguments are evaluated
+            self.need("py_min")
+            return f"(py_min {terms[0]} {terms[1]})"
+        if isinstance(f, ast.Name) and f.id == "list" and len(e.args) == 1:
+            a = e.args[0]
+            if isinstance(a, ast.Call) and isinstance(a.func, ast.Name) and a.func.id == "range":
+                if len(a.args) != 1 or a.keywords:
+                    self.abort(e, "list(range(..)) with more than one argument")
+                return f"(map N.of_nat (seq 0 {self.count(a.args[0], env, hoist)}))"
+            if not isinstance(a, ast.Name) or not is_list(self.ntype(a, env)):
+                self.abort(e, "list(xs) is only translated for xs a sequence variable")
+            return a.id                          # a copy of an immutable value is the value
+        if isinstance(f, ast.Name) and f.id in self.unit.functions:
+            callee = self.unit.functions[f.id]
+            params = self.unit.params[f.id]
+            if len(params) != len(e.args):
+                self.abort(e, f"{f.id}() called with {len(e.args)} arguments")
+            args = [self.expr(a, callee.types[p], env, hoist) for a, p in zip(e.args, params)]
+            for a, p in zip(e.args, params):
+                if is_list(callee.types[p]) and not isinstance(a, ast.Name):
+                    self.abort(e, "list argument that is not a variable")
+            self.nt += 1
+            hoist.append(("call", f"t'{self.nt}", " ".join([self.prefix + (callee.alias or callee.name)] + args)))
+            return f"t'{self.nt}"
+        if _is_self_call(e) and self.cls is not None:
+            if id(e) not in self.callpos:
+                self.abort(e, "self.m(..) is only translated as a whole right-hand side, a returned value, or the "
+                              "index of xs[self.m(..)].append(e) (elsewhere the evaluation order would matter)")
+            callee = next((m for m in self.cls.methods if m.name == f.attr), None)
+            if callee is None or not callee.ret or callee.name == "__init__":
+                self.abort(e, f"call of {f.attr!r}, which is not a translated method returning a value")
+            done = [m.name for m in self.unit.done_methods.get(self.cls.name, [])]
+            rec = callee.name == self.fn.name
+            if not rec and callee.name not in done:
+                self.abort(e, f"method {f.attr!r} is not translated before its caller")
+            if rec and not self.spec.rec_fuel:
+                self.abort(e, "recursive method without a declared fuel measure")
+            if any(v not in env for v in self.fieldvars):
+                self.abort(e, "method call before every attribute is assigned")
+            params = self.unit.params[(self.cls.name, callee.name)]
+            if len(params) != len(e.args):
+                self.abort(e, f"{f.attr}() called with {len(e.args)} arguments")
+            args = []
+            for a, p in zip(e.args, params):
+                if is_list(callee.types[p]):
+                    self.abort(e, "list argument to a method")
+                if any(_is_self_call(n) for n in ast.walk(a)):
+                    self.abort(e, "method call inside the arguments of a method call")
+                args.append(self.expr(a, callee.types[p], env, hoist))
+            name = self.prefix + (callee.alias or callee.name)
+            if rec:
+                self.in_rec = True
+                name += "_rec fuel''"
+            self.nt += 1
+            hoist.append(("call", f"({self.state(e)}, t'{self.nt})", " ".join([name, self.state(e)] + args)))
+            return f"t'{self.nt}"
+        self.abort(e, "call outside the handled subset")
+
     def hoisted(self, hoist, lines: List[str], ctx: _Ctx) -> List[str]:
-        for tmp, seq, idx in reversed(hoist):
-            lines = [f"match nth_error {seq} (N.to_nat {idx}) with", f"| None => {ctx.fail('IndexError')}",
-                     f"| Some {tmp} =>"] + _ind(lines) + ["end"]
+        for h in reversed(hoist):
+            if h[0] == "idx":
+                lines = [f"match nth_error {h[2]} (N.to_nat {h[3]}) with", f"| None => {ctx.fail('IndexError')}",
+                         f"| Some {h[1]} =>"] + _ind(lines) + ["end"]
+            elif h[0] == "zidx":
+                lines = [f"match zget {h[2]} {h[3]} with", f"| None => {ctx.fail('IndexError')}",
+                         f"| Some {h[1]} =>"] + _ind(lines) + ["end"]
+            elif h[0] == "unwrap":
+                lines = [f"match {h[2]} with", f"| None => {ctx.fail(h[3])}", f"| Some {h[1]} =>"] + _ind(lines) + ["end"]
+            elif h[0] == "guard":
+                lines = [f"if {h[1]} then {ctx.fail(h[2])} else ("] + _ind(lines) + [")"]
+            elif h[0] == "call":
+                lines = [f"match {h[2]} with", f"| Err e' => " + ctx.fail("e'"), f"| Ok {h[1]} =>"] \
+                    + _ind(lines) + ["end"]
         return lines
 
     # ---------------------------------------------------------------- statements
+    def mark_calls(self, s):
+        """Positions of statement `s` where a call of a method of `self` may stand."""
+        self.callpos = set()
+        if isinstance(s, (ast.Assign, ast.AnnAssign, ast.Return)) and s.value is not None:
+            self.callpos.add(id(s.value))
+        if isinstance(s, ast.Expr) and isinstance(s.value, ast.Call) and isinstance(s.value.func, ast.Attribute) \
+                and s.value.func.attr == "append" and isinstance(s.value.func.value, ast.Subscript) \
+                and isinstance(s.value.func.value.value, ast.Name):
+            self.callpos.add(id(s.value.func.value.slice))
+
+    def updatable(self, node, x: str, env):
+        """`x` names a list this function may update in place."""
+        if x is None or not is_list(self.ntype(ast.copy_location(ast.Name(id=x, ctx=ast.Load()), node), env)):
+            self.abort(node, "update of something that is not a declared sequence variable")
+        if x in self.params:
+            self.abort(node, "update of a parameter (it would be mutated for the caller)")
+
+    def setter(self, node, sl, env, hoist):
+        """(function name, index term) of the update at index expression `sl`."""
+        it = self.ntype(sl, env)
+        if it == "Z":
+            self.need("zset")
+            return "zset", self.expr(sl, "Z", env, hoist)
+        if it not in ("N", "lit"):
+            self.abort(node, "index must be of declared type N or Z")
+        self.need("nset")
+        return "nset", self.expr(sl, "N", env, hoist)
+
+    def setter_of(self, entry):
+        """(function name, index term) of the update at the position read by the hoisted index `entry`."""
+        fn = "zset" if entry[0] == "zidx" else "nset"
+        self.need(fn)
+        return fn, entry[3]
+
+    def store(self, node, target, value_of, env, h, rest, ctx, read_first=False) -> List[str]:
+        """`target = value` for a subscript target; `value_of(old)` translates the value (appending to `h`)."""
+        x = _base_name(target)
+        self.updatable(node, x, env)
+        if self.unit is None:
+            self.abort(node, "only 'name = expression' assignments are handled")
+        chain = []
+        n = target
+        while isinstance(n, ast.Subscript):
+            if isinstance(n.slice, ast.Slice):
+                self.abort(node, "slice assignment")
+            chain.append(n.slice)
+            n = n.value
+        chain.reverse()
+        if len(chain) > 2 or (read_first and len(chain) != 1):
+            self.abort(node, "store outside the handled subset (xs[i] = e, t[i][j] = e, xs[i] op= e)")
+        if read_first:                      # xs[i] op= e : the old value is read before e is evaluated
+            old = self.index(node, x, chain[0], env, h)
+            fn, idx = self.setter_of(h[-1])
+            term = value_of(old)
+            return self.hoisted(h, [f"match {fn} {x} {idx} {term} with", f"| None => {ctx.fail('IndexError')}",
+                                    f"| Some {x} =>"] + _ind(rest()) + ["end"], ctx)
+        term = value_of(None)
+        if len(chain) == 1:
+            fn, idx = self.setter(node, chain[0], env, h)
+            return self.hoisted(h, [f"match {fn} {x} {idx} {term} with", f"| None => {ctx.fail('IndexError')}",
+                                    f"| Some {x} =>"] + _ind(rest()) + ["end"], ctx)
+        row = self.index(node, x, chain[0], env, h)
+        fn0, idx0 = self.setter_of(h[-1])
+        fn1, idx1 = self.setter(node, chain[1], env, h)
+        self.nt += 1
+        new = f"t'{self.nt}"
+        return self.hoisted(h, [f"match {fn1} {row} {idx1} {term} with", f"| None => {ctx.fail('IndexError')}",
+                                f"| Some {new} =>", f"  match {fn0} {x} {idx0} {new} with",
+                                f"  | None => {ctx.fail('IndexError')}", f"  | Some {x} =>"] + _ind(_ind(rest()))
+                            + ["  end", "end"], ctx)
+
     def block(self, stmts, env: List[str], ctx: _Ctx) -> List[str]:
         if not stmts:
             if ctx.fall is None:
                 self.abort(self.fn, "the function can reach its end without a return")
+            if callable(ctx.fall):
+                return [ctx.fall(env)]
             return [ctx.fall]
         s, rest = stmts[0], stmts[1:]
         h: list = []
+        self.mark_calls(s)
         if isinstance(s, (ast.Return, ast.Break)) and rest:
             self.abort(rest[0], "statement after return/break")
         if isinstance(s, ast.Return):
-            if s.value is None:
+            if s.value is None or not self.spec.ret:
                 self.abort(s, "return without a value")
             return self.hoisted(h, [ctx.ret(self.expr(s.value, self.spec.ret, env, h))], ctx)
         if isinstance(s, ast.Break):
@@ -261,25 +768,98 @@ class _Fun:
         if isinstance(s, ast.Pass) or (isinstance(s, ast.Expr) and isinstance(s.value, ast.Constant)
                                        and isinstance(s.value.value, str) and s is self.fn.body[0]):
             return self.block(rest, env, ctx)
+        if isinstance(s, ast.Assert):
+            t = s.test
+            if not (s.msg is None and isinstance(t, ast.Compare) and len(t.ops) == 1 and isinstance(t.ops[0], ast.IsNot)
+                    and isinstance(t.left, ast.Name) and isinstance(t.comparators[0], ast.Constant)
+                    and t.comparators[0].value is None and self.unit is not None):
+                self.abort(s, "assert outside the handled subset (assert x is not None)")
+            x = t.left.id
+            if not is_option(self.ntype(t.left, env)):
+                self.abort(s, f"assert {x} is not None on a variable that is not of an option type (or is already narrowed)")
+            self.need("AssertionError")
+            return [f"match {x} with", f"| None => {ctx.fail('AssertionError')}", f"| Some {x} =>"] \
+                + _ind(self.block(rest, env + [x + "!"], ctx)) + ["end"]
         if isinstance(s, ast.Expr):
             c = s.value
             if not (isinstance(c, ast.Call) and isinstance(c.func, ast.Attribute) and c.func.attr == "append"
-                    and isinstance(c.func.value, ast.Name) and len(c.args) == 1 and not c.keywords):
+                    and isinstance(c.func.value, (ast.Name, ast.Subscript)) and len(c.args) == 1 and not c.keywords):
                 self.abort(s, "expression statement outside the handled subset (xs.append(e))")
+            if isinstance(c.func.value, ast.Subscript):
+                tgt = c.func.value
+                if not isinstance(tgt.value, ast.Name) or self.unit is None:
+                    self.abort(s, "expression statement outside the handled subset (xs.append(e))")
+                x = tgt.value.id
+                self.updatable(s, x, env)
+                rt = arg_of(self.ntype(tgt.value, env))
+                if not is_list(rt):
+                    self.abort(s, "append to something that is not a list")
+                row = self.index(s, x, tgt.slice, env, h)
+                fn, idx = self.setter_of(h[-1])
+                val = self.expr(c.args[0], arg_of(rt), env, h)
+                return self.hoisted(h, [f"match {fn} {x} {idx} ({row} ++ cons {val} nil) with",
+                                        f"| None => {ctx.fail('IndexError')}", f"| Some {x} =>"]
+                                    + _ind(self.block(rest, env, ctx)) + ["end"], ctx)
             x = c.func.value.id
-            if self.ntype(c.func.value, env) != "list" or x in self.params:
+            lt = self.ntype(c.func.value, env)
+            if not is_list(lt) or x in self.params:
                 self.abort(s, "append is only handled on a local sequence variable (a parameter would be mutated for the caller)")
-            term = f"({x} ++ cons {self.expr(c.args[0], 'elem', env, h)} nil)"
+            term = f"({x} ++ cons {self.expr(c.args[0], arg_of(lt), env, h)} nil)"
             return self.hoisted(h, [f"let {x} := {term} in"] + self.block(rest, env, ctx), ctx)
-        if isinstance(s, ast.Assign):
-            if len(s.targets) != 1 or not isinstance(s.targets[0], ast.Name):
+        if isinstance(s, (ast.Assign, ast.AnnAssign)):
+            if isinstance(s, ast.AnnAssign):
+                if s.value is None or self.unit is None:
+                    self.abort(s, "only 'name = expression' assignments are handled")
+                target = s.target
+            else:
+                if len(s.targets) != 1:
+                    self.abort(s, "only 'name = expression' assignments are handled")
+                target = s.targets[0]
+            if isinstance(target, ast.Subscript):
+                bt = None
+                n = target
+                depth = 0
+                while isinstance(n, ast.Subscript):
+                    n, depth = n.value, depth + 1
+                if isinstance(n, ast.Name):
+                    bt = self.ntype(ast.copy_location(ast.Name(id=n.id, ctx=ast.Load()), s), env)
+                    for _ in range(depth):
+                        if not is_list(bt):
+                            self.abort(s, "store into something that is not a list")
+                        bt = arg_of(bt)
+                    if is_list(bt) and not self.is_fresh(s.value):
+                        self.abort(s, "a list cell may only be assigned a freshly built list (anything else could alias another list)")
+                return self.store(s, target, lambda old: self.expr(s.value, bt, env, h), env, h,
+                                  lambda: self.block(rest, env, ctx), ctx)
+            if not isinstance(target, ast.Name):
                 self.abort(s, "only 'name = expression' assignments are handled")
-            x = s.targets[0].id
-            if self.ty(s, x) == "list" and not isinstance(s.value, ast.List):
-                self.abort(s, "a sequence variable may only be assigned [] (anything else could alias another list)")
-            term = self.expr(s.value, self.ty(s, x), env, h)
-            return self.hoisted(h, [f"let {x} := {term} in"] + self.block(rest, env + [x] * (x not in env), ctx), ctx)
+            x = target.id
+            xt = self.ty(s, x)
+            if self.unit is None:
+                if xt == "list" and not isinstance(s.value, ast.List):
+                    self.abort(s, "a sequence variable may only be assigned [] (anything else could alias another list)")
+            elif is_list(xt):
+                if not self.is_fresh(s.value):
+                    self.abort(s, "a sequence variable may only be assigned a freshly built list (anything else could alias another list)")
+                if x in self.fieldvars and self.fn.name != "__init__":
+                    self.abort(s, "a list attribute may only be rebound in __init__")
+            term = self.expr(s.value, xt, env, h)
+            env2 = [v for v in env if v != x + "!"]
+            return self.hoisted(h, [f"let {x} := {term} in"] + self.block(rest, env2 + [x] * (x not in env2), ctx), ctx)
         if isinstance(s, ast.AugAssign):
+            if isinstance(s.target, ast.Subscript) and type(s.op) in BINOPS and isinstance(s.target.value, ast.Name):
+                et = arg_of(self.ntype(s.target.value, env))
+
+                def value_of(old):
+                    load = ast.copy_location(ast.Name(id="old'", ctx=ast.Load()), s)
+                    rt = self.ntype(s.value, env)
+                    jt = self.join(s, et, rt)
+                    if isinstance(s.op, ast.Sub):
+                        jt = "Z"
+                    if jt != et or isinstance(s.op, (ast.LShift, ast.RShift)):
+                        self.abort(s, f"augmented assignment producing {jt} into a cell of type {et}")
+                    return f"({et}.{BINOPS[type(s.op)]} {old} {self.expr(s.value, et, env, h)})"
+                return self.store(s, s.target, value_of, env, h, lambda: self.block(rest, env, ctx), ctx, read_first=True)
             if not isinstance(s.target, ast.Name) or type(s.op) not in BINOPS:
                 self.abort(s, "augmented assignment outside the handled subset")
             x = s.target.id
@@ -289,12 +869,15 @@ class _Fun:
         if isinstance(s, ast.If):
             inner, lines = ctx, []
             if rest:
-                mod = [v for v in env if v in _assigned(s.body + s.orelse)]
+                mod = [v for v in env if v in self.assigned(s.body + s.orelse)]
+                if any(v + "!" in env for v in mod):
+                    self.abort(s, "a variable narrowed by an assert is assigned in a branch")
                 self.nk += 1
                 k = f"k'{self.nk}"
                 lines = [f"let {k} := fun {' '.join(self.binder(s, v) for v in mod) or '(_ : unit)'} =>"] \
                     + _ind(self.block(rest, env, ctx)) + ["in"]
                 inner = replace(ctx, fall=f"{k} {' '.join(mod) or 'tt'}")
+                self.mark_calls(s)
             test = self.expr(s.test, "bool", env, h)
             return lines + self.hoisted(h, [f"if {test} then ("] + _ind(self.block(s.body, env, inner)) + [") else ("]
                                         + _ind(self.block(s.orelse, env, inner)) + [")"], ctx)
@@ -304,7 +887,7 @@ class _Fun:
             call, state = self.loop(s, env, h)
             pat = "_" if not state else state[0] if len(state) == 1 else "(" + ", ".join(state) + ")"
             return self.hoisted(h, [f"match {call} with", f"| Next {pat} =>"] + _ind(self.block(rest, env, ctx))
-                                + ["| Ret r' => " + ctx.ret("r'"), "| Fail e' => " + ctx.fail("e'"), "end"], ctx)
+                                + ["| Ret r' => " + (ctx.retp or ctx.ret)("r'"), "| Fail e' => " + ctx.fail("e'"), "end"], ctx)
         self.abort(s, f"statement outside the handled subset: {type(s).__name__}")
 
     def loop(self, s, env: List[str], h: list):
@@ -314,55 +897,81 @@ class _Fun:
         targets: List[str] = []
         if isinstance(s, ast.For):
             it = s.iter
-            if not (isinstance(it, ast.Call) and isinstance(it.func, ast.Name) and len(it.args) == 1 and not it.keywords):
+            nargs = (1, 2) if self.unit is not None else (1,)
+            if not (isinstance(it, ast.Call) and isinstance(it.func, ast.Name) and len(it.args) in nargs and not it.keywords):
                 self.abort(s, "for loop outside the handled subset (range(e), enumerate(xs))")
             if it.func.id == "range" and isinstance(s.target, ast.Name):
                 kind, targets = "range", [s.target.id] * (s.target.id != "_")
             elif it.func.id == "enumerate" and isinstance(s.target, ast.Tuple) and len(s.target.elts) == 2 \
-                    and all(isinstance(x, ast.Name) for x in s.target.elts) and isinstance(it.args[0], ast.Name):
+                    and all(isinstance(x, ast.Name) for x in s.target.elts) and isinstance(it.args[0], ast.Name) \
+                    and len(it.args) == 1:
                 kind, targets = "enum", [x.id for x in s.target.elts]
             else:
                 self.abort(s, "for loop outside the handled subset (range(e), enumerate(xs))")
         else:
             kind = "while"
-        mutated = _assigned(s.body)
+        mutated = self.assigned(s.body)
         for x in targets:
             if x in env or x in mutated or len(set(targets)) != len(targets):
                 self.abort(s, f"loop variable {x!r} is also assigned elsewhere")
         state = [v for v in env if v in mutated]
-        used = _names(s.body + ([s.test] if kind == "while" else []))
+        used = self.used(s.body + ([s.test] if kind == "while" else []))
         ro = [v for v in env if v not in state and v in used]
-        name = f"{self.prefix}{self.fn.name}_{'while' if kind == 'while' else 'for'}{n}"
+        if any(v + "!" in env for v in state + ro):
+            self.abort(s, "a variable narrowed by an assert is used in a loop")
+        if self.spec.rec_fuel and any(_is_self_call(c) and c.func.attr == self.fn.name
+                                      for b in s.body for c in ast.walk(b)):
+            self.abort(s, "recursive call inside a loop")
+        name = f"{self.prefix}{self.spec.alias or self.fn.name}_{'while' if kind == 'while' else 'for'}{n}"
         tup = "tt" if not state else state[0] if len(state) == 1 else "(" + ", ".join(state) + ")"
-        sty = " * ".join(COQ_TYPE[self.ty(s, v)] for v in state) or "unit"
-        ctx = _Ctx(ret=lambda e: f"Ret {e}", fail=lambda e: f"Fail {e}", fall=None, brk=f"Next {tup}")
+        sty = " * ".join(coq_type(self.ty(s, v)) for v in state) or "unit"
+        ctx = _Ctx(ret=lambda e: f"Ret {self.pack(e)}", fail=lambda e: f"Fail {e}", fall=None, brk=f"Next {tup}",
+                   retp=lambda e: f"Ret {e}")
         args = lambda mid: " ".join([name] + ro + mid + state)
         sig = lambda mid, struct: " ".join(
             [f"Fixpoint {name}"] + [self.binder(s, v) for v in ro] + [mid] + [self.binder(s, v) for v in state]
-            + [f"{{struct {struct}}} : flow ({sty}) ({self.R}) :="])
+            + [f"{{struct {struct}}} : flow ({sty}) ({self.RR}) :="])
         inner_env = [v for v in env if v in ro or v in state]
         if kind == "enum":
             seq = it.args[0].id
-            if self.ntype(it.args[0], env) != "list" or seq in mutated:
+            if not is_list(self.ntype(it.args[0], env)) or seq in mutated:
                 self.abort(s, "enumerate() must iterate a sequence variable the loop does not modify")
-            if self.ty(s, targets[0]) != "N" or self.ty(s, targets[1]) != "elem":
+            et = arg_of(self.ntype(it.args[0], env))
+            if self.ty(s, targets[0]) != "N" or self.ty(s, targets[1]) != et:
                 self.abort(s, "enumerate() targets must be declared (N, elem)")
             ctx.fall = args(["it''", "(N.succ idx')"])
             body = self.block(s.body, inner_env + targets, ctx)
-            fix = [sig("(it' : list A) (idx' : N)", "it'"), "  match it' with", f"  | nil => Next {tup}",
+            fix = [sig(f"(it' : {coq_type(self.ntype(it.args[0], env))}) (idx' : N)", "it'"), "  match it' with",
+                   f"  | nil => Next {tup}",
                    f"  | cons {targets[1]} it'' =>", f"    let {targets[0]} := idx' in"] + _ind(_ind(body)) + ["  end."]
             call = args([seq, "0%N"])
-        elif kind == "range":
-            if self.ntype(it.args[0], env) not in ("N", "lit"):
+        elif kind == "range" and len(it.args) == 1:
+            if self.ntype(it.args[0], env) not in (("N", "lit") if self.unit is None else ("N", "lit", "Z")):
                 self.abort(s, "range(e) is only translated for e of declared type N")
-            count = self.expr(it.args[0], "N", env, h)
+            count = self.count(it.args[0], env, h)
             if targets and self.ty(s, targets[0]) != "N":
                 self.abort(s, "range() target must be declared N")
             ctx.fall = args(["cnt''"] + ["(N.succ idx')"] * len(targets))
             body = self.block(s.body, inner_env + targets, ctx)
             fix = [sig("(cnt' : nat)" + " (idx' : N)" * len(targets), "cnt'"), "  match cnt' with", f"  | O => Next {tup}",
                    "  | S cnt'' =>"] + [f"    let {x} := idx' in" for x in targets] + _ind(_ind(body)) + ["  end."]
-            call = args([f"(N.to_nat {count})"] + ["0%N"] * len(targets))
+            call = args([count] + ["0%N"] * len(targets))
+        elif kind == "range":
+            tt = self.ty(s, targets[0]) if targets else "Z"
+            st = self.ntype(it.args[0], env)
+            if tt not in ("N", "Z") or (tt == "N" and st not in ("N", "lit")):
+                self.abort(s, "range(a, b) target must be declared Z, or N when a is of type N")
+            self.join(s, st, self.ntype(it.args[1], env))
+            hs: list = []
+            start, lo = self.expr(it.args[0], tt, env, hs), self.expr(it.args[0], "Z", env, hs)
+            if hs:
+                self.abort(s, "range(a, b) with a start that can raise")
+            hi = self.expr(it.args[1], "Z", env, h)
+            ctx.fall = args(["cnt''"] + [f"({tt}.succ idx')"] * len(targets))
+            body = self.block(s.body, inner_env + targets, ctx)
+            fix = [sig("(cnt' : nat)" + f" (idx' : {tt})" * len(targets), "cnt'"), "  match cnt' with", f"  | O => Next {tup}",
+                   "  | S cnt'' =>"] + [f"    let {x} := idx' in" for x in targets] + _ind(_ind(body)) + ["  end."]
+            call = args([f"(Z.to_nat (Z.sub {hi} {lo}))"] + [start] * len(targets))
         else:
             if n not in self.spec.fuel:
                 self.abort(s, f"while loop number {n} has no declared fuel measure")
@@ -378,6 +987,10 @@ class _Fun:
         self.fixpoints.append("\n".join(fix))
         return call, state
 
+    def pack(self, e: str) -> str:
+        """The value a `return e` hands back: for a method, together with the state of the object."""
+        return e if self.cls is None else f"({self.state(self.fn)}, {e})"
+
     def translate(self) -> str:
         fn, a = self.fn, self.fn.args
         if fn.decorator_list:
@@ -387,12 +1000,81 @@ class _Fun:
         self.params = [x.arg for x in a.args]
         if len(set(self.params)) != len(self.params):
             self.abort(fn, "duplicate parameter")
+        self.RR = self.R
+        if self.cls is not None:
+            return self.translate_method()
         binders = " ".join(self.binder(fn, p) for p in self.params)
         ctx = _Ctx(ret=lambda e: f"Ok {e}", fail=lambda e: f"Err {e}", fall=None)
         body = self.block(fn.body, list(self.params), ctx)
         head = f"(* {fn.name}, line {fn.lineno} *)\n"
         return head + "\n\n".join(self.fixpoints + [
-            f"Definition {self.prefix}{fn.name} {binders} : res ({self.R}) :=\n" + "\n".join(_ind(body)) + "."])
+            f"Definition {self.prefix}{self.spec.alias or fn.name} {binders} : res ({self.R}) :=\n" + "\n".join(_ind(body)) + "."])
+
+    def translate_method(self) -> str:
+        fn, cls = self.fn, self.cls
+        if not self.params or self.params[0] != "self":
+            self.abort(fn, "method whose first parameter is not 'self'")
+        self.params = self.params[1:]
+        st = f"{cls.short}_state"
+        init = fn.name == "__init__"
+        if init != (not self.spec.ret):
+            self.abort(fn, "exactly __init__ returns nothing")
+        fn.body = [_SelfRewriter(self, cls).visit(s) for s in fn.body]
+        for n in ast.walk(fn):
+            if isinstance(n, ast.Name) and n.id == "self" and not getattr(n, "is_call_base", False):
+                self.abort(n, "use of 'self' other than self.<declared attribute> or self.<method>(..)")
+        self.RR = st if init else f"{st} * {self.R}"
+        binders = " ".join(self.binder(fn, p) for p in self.params)
+        name = self.prefix + (self.spec.alias or fn.name)
+        head = f"(* {cls.name}.{fn.name}, line {fn.lineno} *)\n"
+
+        def fall(env):
+            missing = [v for v in self.fieldvars if v not in env]
+            if missing:
+                self.abort(fn, f"__init__ does not assign {missing[0].replace(chr(39), '.')} on every path at top level")
+            return f"Ok {self.state(fn)}"
+        ctx = _Ctx(ret=lambda e: f"Ok {self.pack(e)}", fail=lambda e: f"Err {e}", fall=fall if init else None,
+                   retp=lambda e: f"Ok {e}")
+        body = self.block(fn.body, list(self.params) + ([] if init else self.fieldvars), ctx)
+        if init:
+            return head + "\n\n".join(self.fixpoints + [
+                f"Definition {name}{' ' * bool(binders)}{binders} : res ({self.RR}) :=\n" + "\n".join(_ind(body)) + "."])
+        body = [f"let '{self.state(fn)} := self in"] + body
+        if not self.in_rec:
+            if self.spec.rec_fuel:
+                self.abort(fn, "fuel declared for a method that does not call itself")
+            return head + "\n\n".join(self.fixpoints + [
+                f"Definition {name} (self : {st}){' ' * bool(binders)}{binders} : res ({self.RR}) :=\n" + "\n".join(_ind(body)) + "."])
+        if self.fixpoints:
+            self.abort(fn, "recursive method with loops")
+        rec = [f"Fixpoint {name}_rec (fuel' : nat) (self : {st}) {binders} {{struct fuel'}} : res ({self.RR}) :=",
+               "  match fuel' with", "  | O => Err OutOfFuel", "  | S fuel'' =>"] + _ind(_ind(body)) + ["  end."]
+        top = [f"Definition {name} (self : {st}){' ' * bool(binders)}{binders} : res ({self.RR}) :=",
+               f"  {name}_rec ({self.spec.rec_fuel}) self {' '.join(self.params)}."]
+        return head + "\n".join(rec) + "\n\n" + "\n".join(top)
+
+
+class _SelfRewriter(ast.NodeTransformer):
+    """`self.f` (f a declared attribute) -> the variable `self'f`; marks the `self` of `self.m(..)`."""
+
+    def __init__(self, fun: _Fun, cls: ClassSpec):
+        self.fun, self.cls = fun, cls
+
+    def visit_Call(self, node):
+        if _is_self_call(node):
+            node.func.value.is_call_base = True
+            node.args = [self.visit(a) for a in node.args]
+            return node
+        return self.generic_visit(node)
+
+    def visit_Attribute(self, node):
+        if isinstance(node.value, ast.Name) and node.value.id == "self":
+            if node.attr not in self.cls.fields:
+                self.fun.abort(node, f"self.{node.attr} is not a declared attribute")
+            if isinstance(node.ctx, ast.Del):
+                self.fun.abort(node, "del of an attribute")
+            return ast.copy_location(ast.Name(id="self'" + node.attr, ctx=node.ctx), node)
+        return self.generic_visit(node)
 
 
 def translate_function(path: Path, fn: ast.FunctionDef, spec: FunSpec, prefix: str = "gen_") -> str:
@@ -401,3 +1083,97 @@ def translate_function(path: Path, fn: ast.FunctionDef, spec: FunSpec, prefix: s
         if t not in COQ_TYPE:
             raise TranslatorAbort(f"{path}:{fn.lineno}: unknown declared type {t!r} for {fn.name}")
     return _Fun(path, fn, spec, prefix).translate()
+
+
+class Unit:
+    """One generated file: functions and classes of one Python module, translated in the order
+    given (a callee before its callers), plus the prelude with exactly the errors/helpers used."""
+
+    def __init__(self, path: Path, tree: ast.Module, prefix: str = "gen_", elem_lt: bool = False):
+        self.path, self.tree, self.prefix, self.elem_lt = path, tree, prefix, elem_lt
+        self.functions: Dict[str, FunSpec] = {}
+        self.params: Dict[object, List[str]] = {}
+        self.done_methods: Dict[str, List[FunSpec]] = {}
+        self.errors: set = set()
+        self.helpers: set = set()
+
+    def abort(self, node, msg):
+        raise TranslatorAbort(f"{self.path}:{getattr(node, 'lineno', 0)}: {msg}")
+
+    def _norm(self, node, spec: FunSpec, extra: Dict[str, str] = None) -> FunSpec:
+        try:
+            types = {k: norm_type(v) for k, v in spec.types.items()}
+            ret = norm_type(spec.ret) if spec.ret else ""
+            for v in (extra or {}).values():
+                norm_type(v)
+        except ValueError as e:
+            self.abort(node, f"unknown declared type {e.args[0]!r} for {spec.name}")
+        return replace(spec, types=types, ret=ret)
+
+    def _unique(self, body, name, kind):
+        """The one definition of `name` among the statements `body`, which nothing rebinds."""
+        scope = ast.Module(body=body, type_ignores=[])
+        defs = [n for n in ast.walk(scope) if isinstance(n, (ast.FunctionDef, ast.AsyncFunctionDef, ast.ClassDef))
+                and n.name == name]
+        stores = [n for n in ast.walk(self.tree) if isinstance(n.__dict__.get("ctx"), (ast.Store, ast.Del))
+                  and (isinstance(n, ast.Name) and n.id == name or isinstance(n, ast.Attribute) and n.attr == name
+                       and not (isinstance(n.value, ast.Name) and n.value.id == "self"))]
+        if len(defs) != 1 or not isinstance(defs[0], kind) or defs[0] not in body or stores:
+            where = (defs + stores + [self.tree])[0]
+            self.abort(where, f"{name!r} is not defined exactly once, at the expected level, as a definition that is never rebound")
+        return defs[0]
+
+    def function(self, spec: FunSpec) -> str:
+        fn = self._unique(self.tree.body, spec.name, ast.FunctionDef)
+        spec = self._norm(fn, spec)
+        text = _Fun(self.path, copy.deepcopy(fn), spec, self.prefix, unit=self).translate()
+        self.functions[spec.name] = spec
+        self.params[spec.name] = [x.arg for x in fn.args.args]
+        return text
+
+    def klass(self, cspec: ClassSpec) -> str:
+        cls = self._unique(self.tree.body, cspec.name, ast.ClassDef)
+        if cls.decorator_list or cls.keywords:
+            self.abort(cls, "decorated class / class with keywords (metaclass)")
+        for b in cls.bases:
+            if not (isinstance(b, ast.Name) and b.id == "object" or isinstance(b, ast.Subscript)
+                    and isinstance(b.value, ast.Name) and b.value.id == "Generic"):
+                self.abort(b, "base class other than object / Generic[..] (it could change what attribute access means)")
+        for b in cls.body:
+            doc = isinstance(b, ast.Expr) and isinstance(b.value, ast.Constant) and isinstance(b.value.value, str)
+            if not (isinstance(b, (ast.FunctionDef, ast.Pass)) or doc):
+                self.abort(b, "class body statement other than a method definition")
+            if isinstance(b, ast.FunctionDef) and (b.name in FORBIDDEN_METHODS or b.name in cspec.fields):
+                self.abort(b, f"the class defines {b.name!r}, which changes what attribute access means")
+        try:
+            fields = {k: norm_type(v) for k, v in cspec.fields.items()}
+        except ValueError as e:
+            self.abort(cls, f"unknown declared type {e.args[0]!r} for an attribute of {cspec.name}")
+        for f in fields:
+            if f in RESERVED or not f.isascii() or not f.isidentifier():
+                self.abort(cls, f"attribute name {f!r} collides with the generated Coq text")
+        cspec = replace(cspec, fields=fields, methods=[self._norm(cls, m) for m in cspec.methods])
+        st = f"{cspec.short}_state"
+        parts = [f"(* class {cspec.name}, line {cls.lineno} *)\nRecord {st} : Type := mk_{cspec.short} {{ "
+                 + "; ".join(f"{cspec.short}_{f} : {coq_type(t)}" for f, t in fields.items()) + " }."]
+        self.done_methods[cspec.name] = []
+        for m in cspec.methods:
+            fn = self._unique(cls.body, m.name, ast.FunctionDef)
+            self.params[(cspec.name, m.name)] = [x.arg for x in fn.args.args][1:]
+            parts.append(_Fun(self.path, copy.deepcopy(fn), m, self.prefix, unit=self, cls=cspec).translate())
+            self.done_methods[cspec.name].append(m)
+        return "\n\n".join(parts)
+
+    def prelude(self) -> str:
+        """Error/result types (with the error constructors used) and the helper functions used."""
+        extra = [e for e in EXTRA_ERRORS if e in self.errors]
+        text = PRELUDE.replace("IndexError | OutOfFuel.", " | ".join(["IndexError", "OutOfFuel"] + extra) + ".")
+        need = set()
+        for hname in self.helpers:
+            need.add(hname)
+            need.update(HELPER_DEPS.get(hname, []))
+        return text + "".join("\n" + HELPERS[k] + "\n" for k in HELPERS if k in need)
+
+    def section_defs(self) -> str:
+        """Definitions to place inside the Section, after its Context (they use `ltb`)."""
+        return PY_MIN + "\n" if "py_min" in self.helpers else ""
